@@ -203,16 +203,28 @@ Definition link_html (href : bytes) : bytes :=           (* <link href=".." rel=
   [60; 108; 105; 110; 107] ++ attr_html [104; 114; 101; 102] href
   ++ attr_html [114; 101; 108] [99; 97; 110; 111; 110; 105; 99; 97; 108] ++ [62].
 
+(** the application shell of the harness varies: with or without the <!--HEAD--> marker of
+    <MetaTags/>, and with a literal <title> of its own before (1) or after (2) the marker's place *)
+Definition static_title : bytes :=   (* <title>My App</title> *)
+  [60; 116; 105; 116; 108; 101; 62; 77; 121; 32; 65; 112; 112; 60; 47; 116; 105; 116; 108; 101; 62].
+
 Record docu := {
   d_title : option bytes; d_metas : list (bytes * bytes); d_link : option bytes;
-  d_lang : option bytes; d_class : option bytes; d_body : view }.
+  d_lang : option bytes; d_class : option bytes; d_body : view;
+  d_nomarker : bool; d_static : Z }.
 
 Definition opt_bytes (f : bytes -> bytes) (o : option bytes) : bytes :=
   match o with Some s => f s | None => [] end.
 
 Definition document_html (d : docu) : bytes :=
   shell_a ++ opt_bytes (attr_html [108; 97; 110; 103]) (d_lang d)
-  ++ shell_b ++ opt_bytes title_html (d_title d) ++ shell_marker
+  ++ shell_b
+  (* inject_meta_context: the title goes where the marker is — without marker, right before
+     </head> — and the other tags right before </head> *)
+  ++ (if d_nomarker d
+      then (match d_static d with 0%Z => [] | _ => static_title end) ++ opt_bytes title_html (d_title d)
+      else (match d_static d with 1%Z => static_title | _ => [] end) ++ opt_bytes title_html (d_title d)
+           ++ shell_marker ++ (match d_static d with 2%Z => static_title | _ => [] end))
   ++ flat_map (fun m => meta_html (fst m) (snd m)) (d_metas d) ++ opt_bytes link_html (d_link d)
   ++ shell_c ++ opt_bytes (fun c => attrs_html [AClass c]) (d_class d) ++ [62]
   ++ to_html (d_body d) ++ shell_d ++ shell_tail.
